@@ -138,8 +138,12 @@ static ldb_filelock_t *vp_h_ptr[VP_K];
 static int vp_h_used[VP_K], vp_h_file[VP_K], vp_h_fd[VP_K];
 static int vp_second_refused, vp_relocked, vp_failed_closed, vp_unlock_err;
 
+static int vp_both_seen;
+
 static void
 vp_check_os(void) {
+  if (vp_held[0] && vp_held[1])
+    vp_both_seen = 1;
 #if VP_POSIXCLOSE
   int f;
   for (f = 0; f < 2; f++)
@@ -292,7 +296,7 @@ harness(void) {
     VP_WITNESS("unlock-error-reported");
 #endif
 #ifdef VP_W_BOTH
-  if (vp_held[0] && vp_held[1])
+  if (vp_both_seen)
     VP_WITNESS("two-different-files-held");
 #endif
 }
